@@ -217,7 +217,8 @@ def _fuzz_child(st, sub, seed, path):
             with open(os.path.join(corpus, f"seed{k}"), "wb") as f:
                 f.write(blob)
         atheris.Setup([sys.argv[0], f"-seed={seed % (2 ** 31 - 1) + 1}", f"-runs={sub.fuzz_runs + 100}",
-                       "-max_len=16384", "-len_control=0", corpus], one)
+                       "-max_len=16384", "-len_control=0", f"-artifact_prefix={corpus}/", "-report_slow_units=3600",
+                       corpus], one)
         atheris.Fuzz()
     except SystemExit:
         pass
